@@ -399,6 +399,22 @@ func ruleCallWaits(c *core.Ctx, a *epAnchors) {
 		c.Fail(rule, "bus.client.Call/select", fn.Pos(), "client.Call does not wait in a blocking select after sending")
 		return
 	}
+	// the select is the only place where Call blocks: nothing after it may wait
+	// on a channel again (the closer does not always send: a local Close passes nil)
+	for _, b := range fn.Blocks {
+		for _, in := range b.Instrs {
+			blocking := false
+			switch x := in.(type) {
+			case *ssa.UnOp:
+				blocking = x.Op == token.ARROW
+			case *ssa.Select:
+				blocking = x.Blocking && x != sel
+			}
+			if blocking && core.Dominates(sel, in) && in != ssa.Instruction(sel) {
+				c.Fail(rule, "bus.client.Call/blocks-again", in.Pos(), "client.Call waits on a channel again after its select: if that channel is never written (the closer only forwards non-nil errors) the caller hangs although the connection is gone")
+			}
+		}
+	}
 	replyIdx, errIdx := -1, -1
 	for i, st := range sel.States {
 		if st.Dir != types.RecvOnly {
